@@ -348,6 +348,7 @@ func (sw *SpecWorld) parseDirective(file, pkg string, d rawLine, body []rawLine)
 			}
 			scope(c.Requires)
 			scope(c.Ensures)
+			scope(c.Extra)
 			for _, l := range c.Loops {
 				scope(l.Invs)
 			}
